@@ -377,4 +377,28 @@ example (W : World) :
 
 end Join
 
+/-! ### round 4: every key of a result is a key of the class — no "additional" key when the result is parsed again -/
+
+section Excess
+open Utv.C03C
+variable {V E : Type}
+
+/-- the keys of `data` that belong to no field of the class (what `addition=False` / `no_data_loss` refuse, base.py:678-690) -/
+def excessKeys (fs : List (FieldD V E)) (data : List (String × V)) : List String :=
+  (data.map (·.1)).filter fun k => !(fs.map (·.key)).contains k
+
+/-- **the output of a parse never carries an excess key**: whatever the fields are (inputs, defaults, outputs that are not
+inputs), re-parsing the result under `addition=False` cannot fail with ExceedError -/
+theorem C03_result_has_no_excess_keys (copy : V → Except E V) (absent : E) (fs : List (FieldD V E))
+    (input r : List (String × V)) (h : parseDC copy absent fs input = .ok r) : excessKeys fs r = [] := by
+  unfold excessKeys
+  rw [List.filter_eq_nil_iff]
+  intro k hk
+  obtain ⟨e, he, rfl⟩ := List.mem_map.mp hk
+  obtain ⟨f, hf, hfk⟩ := parseDC_keys copy absent fs input r h e he
+  simp only [Bool.not_eq_true, Bool.not_eq_false', List.contains_iff_mem]
+  exact List.mem_map.mpr ⟨f, hf, hfk⟩
+
+end Excess
+
 end Utv.C03
